@@ -28,7 +28,7 @@ def demo(d, demo_c, flags=''):
 def main():
     pid, n = sys.argv[1], sys.argv[2]
     checks = [pid] + sys.argv[3:]
-    wt = '/tmp/wt_%s' % pid
+    wt = os.environ.get('SEED_SRC', '/tmp/wt_%s' % pid)
     diff, demo_c, meta_t = [wt + '/%s%s.%s' % (a, n, b) for a, b in (('seed', 'diff'), ('demo', 'c'), ('meta', 'txt'))]
     name = '%s-%s%s' % (pid, os.environ.get('SEED_TAG', ''), n)
     res = dict(id=name, breaks=pid, source='independent sub-agent given only the property text and a scratch worktree')
@@ -50,6 +50,10 @@ def main():
     flags = ' '.join('-D' + x for x in fl)
     if '-std=c99' in src:
         flags += ' -std=c99'
+    if '-std=c89' in src:
+        flags += ' -std=c89'
+    if '-fsanitize=address' in src + res['needs']:
+        flags += ' -g -fsanitize=address -fno-omit-frame-pointer'
     if '-fsanitize=undefined' in src + res['needs']:
         flags += ' -fsanitize=undefined -fno-sanitize-recover=undefined'
     res['demo_flags'] = flags
